@@ -345,6 +345,7 @@ func (cw *c15World) clientTask(id int) {
 
 func runC15(t *testing.T, tape *verifsim.Tape, prop, tier string, keepLog bool) verifsim.Result {
 	verifsim.RaceLogMark()
+	st0 := verifsim.RaceLogStats
 	res := verifsim.Run(t, tape, keepLog, func(sim *verifsim.Sim, res *verifsim.Result) {
 		d := verifsim.Draw
 		gpu := apiGPU{kind: []int{0, 0, 1, 2, 3}[d("gpukind", 5)], gb: []int{48, 16, 4}[d("gpugb", 3)]}
@@ -402,6 +403,11 @@ func runC15(t *testing.T, tape *verifsim.Tape, prop, tier string, keepLog bool) 
 	if os.Getenv("VERIF_SELFTEST") == "" {
 		res.Violations = append(res.Violations, rv...)
 		res.Info["race_reports_kept"] += len(rv)
+		st := verifsim.RaceLogStats
+		res.Info["race_reports_total"] += st.Blocks - st0.Blocks
+		res.Info["race_reports_dropped_harness_access"] += st.DroppedHarness - st0.DroppedHarness
+		res.Info["race_reports_dropped_no_repo_frame"] += st.DroppedNoRepo - st0.DroppedNoRepo
+		res.Info["race_reports_with_unrestorable_stack"] += st.Unrestorable - st0.Unrestorable
 	}
 	return res
 }
